@@ -26,7 +26,7 @@ def _run_rules(ctx):
         return
     b, cfg, tr = oa.body, oa.cfg, oa.tr
     rep.saw(b)
-    kt_l = oa.arg_local(oa.dec_args.get('kt')) if oa.dec_args.get('kt') else None
+    kt_l = oa.arg_local(oa.dec_args.get('kt'), scope='outer') if oa.dec_args.get('kt') else None
     if not rep.check(kt_l is not None and oa.outer is not None, 'R1', 'anchor:schedule-variable-and-loops',
                      where(b, oa.decision_bb), 'kt=_%s, two nested loops' % kt_l,
                      'cannot identify the temperature local / the two nested loops', 'anchor-lost'):
@@ -52,7 +52,7 @@ def _run_rules(ctx):
         okm = kind == 'assign' and rv['r'] == 'binop' and rv['op'] == 'Mul'
         if okm:
             ops = [rv['a'], rv['b']]
-            selfs = [o for o in ops if oa.arg_local(o) == kt_l]
+            selfs = [o for o in ops if oa.arg_local(o, scope='outer') == kt_l]
             flds = [oa.self_field(o) for o in ops if oa.self_field(o)]
             okm = len(selfs) == 1 and len(flds) == 1
             ratio_field = flds[0] if flds else None
